@@ -652,7 +652,7 @@ func isRejectReturn(fn *ssa.Function, r *ssa.Return) bool {
 func acceptReturns(fn *ssa.Function) []ssa.Instruction {
 	var out []ssa.Instruction
 	eachInstr(fn, func(b *ssa.BasicBlock, ins ssa.Instruction) {
-		if r, ok := ins.(*ssa.Return); ok && !isRejectReturn(fn, r) {
+		if r, ok := ins.(*ssa.Return); ok && b != fn.Recover && !isRejectReturn(fn, r) {
 			out = append(out, r)
 		}
 	})
@@ -662,7 +662,8 @@ func acceptReturns(fn *ssa.Function) []ssa.Instruction {
 func allReturns(fn *ssa.Function) []*ssa.Return {
 	var out []*ssa.Return
 	eachInstr(fn, func(b *ssa.BasicBlock, ins ssa.Instruction) {
-		if r, ok := ins.(*ssa.Return); ok {
+		if r, ok := ins.(*ssa.Return); ok && b != fn.Recover {
+			// the synthetic recover block (functions with defers) is not a source-level exit
 			out = append(out, r)
 		}
 	})
